@@ -91,6 +91,25 @@ func siblingTypes(env map[string]*m.Type) map[string]*m.Type {
 	return out
 }
 
+// siblingKinds: bindings change their top-level constructor (str <-> list[num], list / map ->
+// str): calls that resolved to a monomorphic overload resolve to a polymorphic one and back.
+func siblingKinds(env map[string]*m.Type) map[string]*m.Type {
+	out := map[string]*m.Type{}
+	for k, t := range env {
+		switch t.K {
+		case m.TStr:
+			out[k] = m.List(m.Num)
+		case m.TList, m.TMap:
+			out[k] = m.Str
+		case m.TNum:
+			out[k] = m.List(m.Num)
+		default:
+			out[k] = t
+		}
+	}
+	return out
+}
+
 func checkC05(c *TypingCase) *Outcome {
 	if err := checkBuiltInTable(); err != nil {
 		return &Outcome{Err: err}
@@ -118,6 +137,7 @@ func checkC05(c *TypingCase) *Outcome {
 		// first the same text against a sibling environment on the same engine (same names, same
 		// top-level constructors, other types inside): its verdict is not looked at
 		_, _, _ = en.CompileSrc(r.Src, siblingTypes(pc.Env))
+		_, _, _ = en.CompileSrc(r.Src, siblingKinds(pc.Env))
 		_, cerr, cp := en.CompileSrc(r.Src, pc.Env)
 		if cp != nil {
 			return bad("%s: Compile panicked: %s\n src: %s", be, cp.Text, r.Src)
